@@ -132,8 +132,11 @@ struct ThreadDriver : vrt::Driver {
       auto id = static_cast<long>(IDManager::GetThreadID());
       own_hb[t] = IDManager::GetHeartBeat();
       int stale = 0;
-      for (auto &s : saved)
-        if (s.used && s.id == id && s.owner != t && !s.hb.expired()) ++stale;
+      // (a heartbeat the client itself keeps locked cannot expire: that is the client's doing, not a stale heartbeat)
+      for (int k = 0; k < 32; ++k) {
+        auto &s = saved[k];
+        if (s.used && s.id == id && s.owner != t && !s.hb.expired() && strong[k] == nullptr) ++stale;
+      }
       vrt::Log("{\"e\":\"id\",\"t\":%d,\"id\":%ld,\"stale\":%d}", t, id, stale);
     } else if (k == "HB") {
       int slot = atoi(op.f[1].c_str());
